@@ -80,6 +80,7 @@ type Config struct {
 	SMTLog      io.Writer
 	ReverseMaps bool
 	Tier        int
+	Progress    bool
 	Deadline    time.Time
 }
 
@@ -151,7 +152,7 @@ func (e *Explorer) fresh(sort byte, tag string) symv {
 	name := fmt.Sprintf("%s%d", pfx, e.nsym)
 	ss := map[byte]string{'B': "Bool", 'S': "String", 'I': "Int"}[sort]
 	e.S.Send(fmt.Sprintf("(declare-const %s %s)", name, ss))
-	return symv{sort, name}
+	return symv{sort: sort, term: name}
 }
 
 func (e *Explorer) nondet(sort byte, tag string) symv {
@@ -408,6 +409,25 @@ func Explore(cfg *Config) *Stats {
 	wl.cond = sync.NewCond(&wl.mu)
 	var mu sync.Mutex
 	var wg sync.WaitGroup
+	stopProgress := make(chan struct{})
+	if cfg.Progress {
+		go func() {
+			tk := time.NewTicker(15 * time.Second)
+			defer tk.Stop()
+			for {
+				select {
+				case <-stopProgress:
+					return
+				case <-tk.C:
+					mu.Lock()
+					wl.mu.Lock()
+					fmt.Fprintf(os.Stderr, "  ... %s: %d paths, %d queued, %d active, %d inconclusive, %d candidate violations, %.0fs\n", cfg.Fn, st.Paths, len(wl.items), wl.active, st.Inconclusive, len(st.Violations), time.Since(t0).Seconds())
+					wl.mu.Unlock()
+					mu.Unlock()
+				}
+			}
+		}()
+	}
 	witnessLeft := cfg.Witnesses
 	for w := 0; w < cfg.Workers; w++ {
 		wg.Add(1)
@@ -495,6 +515,7 @@ func Explore(cfg *Config) *Stats {
 		}(w)
 	}
 	wg.Wait()
+	close(stopProgress)
 	st.Wall = time.Since(t0)
 	wl.mu.Lock()
 	st.Exhaustive = !wl.done && len(wl.items) == 0
